@@ -35,6 +35,29 @@ pub enum Case {
     /// checksum validation and raw XML extraction of a file with another page size
     /// (both take the page size from the file header), plus single-bit flips
     PageSize { page_size: u32, xml_len: u16, flips: Vec<u32> },
+    /// a file of about `pages` pages (one big blob between two small ones); one bit is flipped in each of the
+    /// listed pages in turn (`sweep`: in every page of the file in turn, validation only)
+    BigFile { pages: u32, damaged: Vec<u32>, sweep: bool },
+}
+
+fn big_file(pages: u32) -> Result<(Vec<u8>, Vec<(u64, u64)>), String> {
+    use crate::gen::BlobSpec;
+    let p = Program {
+        guid: "{big}".into(),
+        ops: vec![
+            prog::Op::Blob(BlobSpec { len: 700, seed: 3, chunk: 0, xmlish: false }),
+            prog::Op::Blob(BlobSpec { len: pages.saturating_sub(3) * 1020, seed: 4, chunk: 0, xmlish: false }),
+            prog::Op::Blob(BlobSpec { len: 900, seed: 5, chunk: 0, xmlish: false }),
+        ],
+        end: prog::End::Finalize,
+    };
+    let dev = MemDev::new();
+    let h = dev.handle();
+    let mut tr = Trace::default();
+    if guard(|| prog::exec(&p, dev, &mut tr)).is_err() || tr.error.is_some() || !tr.finalized {
+        return Err(format!("writing a file of {pages} pages failed: {:?}", tr.error));
+    }
+    Ok((h.bytes(), tr.blobs.clone()))
 }
 
 /// Minimal file (header + XML) with an arbitrary page size, sealed by e57ref.
@@ -259,7 +282,7 @@ impl Check for C07 {
          every blob), run twice on the same reader (second round after earlier failures), fails or returns exactly the baseline result (iterators: \
          a prefix of the baseline then an error). Both CRC backends: a second binary built with the crc32c cargo feature must produce a \
          byte-identical digest of files and verdicts (generated programs with corruptions, plus a sweep over files of exactly \
-         1..256 pages around powers of two with a bit flipped in the first / middle / last page). Files with page sizes other than 1024 (60..65536, payload not a multiple of 4 included), \
+         1..256 pages around powers of two with a bit flipped in the first / middle / last page). Big files (one of 300 pages with a bit flipped in every page in turn; 4200 pages with flips beyond page 4096 and at multiples of 256; generated ones of 40..4800 pages): validate_crc must fail for every damaged page and sequential blob reads on one reader, twice, fail or return the written bytes. Files with page sizes other than 1024 (60..65536, payload not a multiple of 4 included), \
          sealed by e57ref: validate_crc accepts them and returns the page size, raw_xml returns the XML, and both react correctly to bit flips. evaluations = pages / corruption sets, executions = altered files. Non-trivial: alteration \
          inside a page that a later read operation touches (every page of these files is)."
             .into()
@@ -283,6 +306,13 @@ impl Check for C07 {
             out.push(Case::Sampled { program: p.clone(), corruptions: (0..8u8).map(|page| Corruption::ChecksumReversed { page }).chain((1..3u8).map(|pages| Corruption::ZeroTail { pages })).collect() });
         }
         out.push(Case::Backends { seed: 7, n: t.pick(300, 5000) as u32 });
+        // big files: page bookkeeping of bulk validators and "already checked" caches (block sizes, bit sets, wrap-around)
+        out.push(Case::BigFile { pages: t.pick(300, 1100) as u32, damaged: vec![], sweep: true });
+        out.push(Case::BigFile { pages: 4200, damaged: vec![4096, 4097, 4113, 4150, 4199, 2048 + 31, 1024, 255, 256, 511, 512], sweep: false });
+        if t == Tier::Thorough {
+            out.push(Case::BigFile { pages: 8300, damaged: vec![8192, 8193, 8250, 8299, 4096, 4097], sweep: false });
+            out.push(Case::BigFile { pages: 4200, damaged: vec![], sweep: true });
+        }
         // other page sizes (validate_crc and raw_xml take the page size from the header)
         for ps in [60u32, 64, 131, 512, 1021, 1022, 1023, 1025, 1028, 2048, 4096, 65536] {
             for xl in [60u16, 200, 1500] {
@@ -296,6 +326,10 @@ impl Check for C07 {
         Some(format!("all 8192 single-bit flips of every page of {} generated files (up to 8 pages each); backend digest over {} programs", t.pick(6, 120), t.pick(300, 5000)))
     }
     fn gen(s: &mut Src, _t: Tier) -> Case {
+        if s.chance(1, 400) {
+            let pages = if s.chance(1, 4) { 4100 + s.below(700) as u32 } else { 40 + s.below(900) as u32 };
+            return Case::BigFile { pages, damaged: (0..1 + s.below(4)).map(|_| s.u32()).collect(), sweep: false };
+        }
         let program = small_program(s);
         let n = 1 + s.below(6) as usize;
         let corruptions = (0..n)
@@ -377,6 +411,65 @@ impl Check for C07 {
                         v.fail(e);
                         return v;
                     }
+                }
+            }
+            Case::BigFile { pages, damaged, sweep } => {
+                let (bytes, blobs) = match guard(|| big_file(*pages)) {
+                    Ok(Ok(x)) => x,
+                    Ok(Err(e)) => {
+                        v.fail(e);
+                        return v;
+                    }
+                    Err(p) => {
+                        v.fail(format!("writer panicked: {p}"));
+                        return v;
+                    }
+                };
+                let np = bytes.len() / 1024;
+                v.nt(if np > 4096 { "file_of_more_than_4096_pages" } else { "file_of_hundreds_of_pages" });
+                let r = guard(|| -> Result<u64, String> {
+                    let mut execs = 0u64;
+                    if !E57Reader::validate_crc(MemDev::with_data(bytes.clone())).is_ok() {
+                        return Err(format!("validate_crc rejects an intact file of {np} pages"));
+                    }
+                    // baseline blob contents from the intact file
+                    let mut rd = E57Reader::new(MemDev::with_data(bytes.clone())).map_err(|e| format!("open: {e}"))?;
+                    let mut base: Vec<Vec<u8>> = Vec::new();
+                    for (o, l) in &blobs {
+                        let mut out = Vec::new();
+                        rd.blob(&e57::Blob::new(*o, *l), &mut out).map_err(|e| format!("intact file of {np} pages: blob: {e}"))?;
+                        base.push(out);
+                    }
+                    let list: Vec<usize> = if *sweep { (0..np).collect() } else { damaged.iter().map(|d| *d as usize % np).collect() };
+                    let mut alt = bytes.clone();
+                    for pg in list {
+                        let pos = pg * 1024 + 17 + (pg * 7) % 1000;
+                        alt[pos] ^= 1 << (pg % 8);
+                        execs += 1;
+                        if E57Reader::validate_crc(MemDev::with_data(alt.clone())).is_ok() {
+                            return Err(format!("validate_crc accepts a file of {np} pages with a flipped bit in page {pg}"));
+                        }
+                        if !*sweep {
+                            // sequential reads on one reader: every earlier page has been read (and found valid) before the damaged one
+                            if let Ok(mut rd) = E57Reader::new(MemDev::with_data(alt.clone())) {
+                                for round in 0..2 {
+                                    for (k, (o, l)) in blobs.iter().enumerate() {
+                                        let mut out = Vec::new();
+                                        if rd.blob(&e57::Blob::new(*o, *l), &mut out).is_ok() && out != base[k] {
+                                            return Err(format!("file of {np} pages, bit flipped in page {pg}: blob {k} (round {round}) is returned with altered bytes"));
+                                        }
+                                    }
+                                }
+                            }
+                        }
+                        alt[pos] = bytes[pos];
+                    }
+                    Ok(execs)
+                });
+                match r {
+                    Err(p) => v.fail(format!("reader panicked: {p}")),
+                    Ok(Err(e)) => v.fail(e),
+                    Ok(Ok(n)) => v.execs = n.max(1),
                 }
             }
             Case::AllBits { program, page } => {
